@@ -8,6 +8,7 @@ import (
 	"time"
 
 	"github.com/go-gts/gts"
+	"verif/clidrv"
 	"verif/engine"
 	"verif/locdom"
 	"verif/refmodel"
@@ -20,6 +21,11 @@ type c12Case struct {
 	L     int      `json:"L"`
 	Feats []string `json:"features"` // key|loc|props
 	Cuts  []int    `json:"cuts,omitempty"`
+	// generated large tables (kind big) and CLI streams (kind cli-stream)
+	N    int   `json:"classes,omitempty"`
+	P    int   `json:"value_prefix_len,omitempty"`
+	Pat  int   `json:"pattern,omitempty"`
+	Recs []int `json:"records,omitempty"`
 }
 
 func classKey(f gts.Feature) string { return fmt.Sprintf("%s:%v", f.Key, f.Props) }
@@ -352,6 +358,10 @@ func c12Eval(c c12Case) (ok bool, sig, detail string) {
 		feats[i] = decFeature(s)
 	}
 	switch c.Kind {
+	case "big":
+		return c12BigEval(c)
+	case "cli-stream":
+		return c12CLIEval(c)
 	case "table":
 		return c12CheckRepair(feats, "table")
 	case "cut-repair":
@@ -433,7 +443,7 @@ func init() {
 	register(&Check{ID: "C12", Level: "model_checking", Quick: 150 * time.Second, Thor: 30 * time.Minute,
 		Run: func(r *engine.Run) bool {
 			L := 8
-			r.Rule = "programs slice;..;slice;concat;repair and repair;repair on the real API: every table of 1..2 (quick) / 1..3 (thorough) features over a location menu (ranges, partial ranges, points, orders, 2-part joins, complements) x keys {gene,CDS,source} x {equal, distinct} qualifiers x every set of 1..3 cut positions of an 8-residue sequence; plus hand-free safety tables (abutting/non-abutting, same/different class, nested, overlapping) straight into Repair; distinct key = the case; non-trivial = >=1 cut inside a feature or >=2 features of one class"
+			r.Rule = "programs slice;..;slice;concat;repair and repair;repair on the real API: every table of 1..2 (quick) / 1..3 (thorough) features over a location menu (ranges, partial ranges, points, orders, 2-part joins, complements) x keys {gene,CDS,source} x {equal, distinct} qualifiers x every set of 1..3 cut positions of an 8-residue sequence; plus hand-free safety tables (abutting/non-abutting, same/different class, nested, overlapping) straight into Repair; size dimension: generated tables of 1..140 (thorough 300) classes and qualifier values with a common prefix of up to 5000 characters under five cut patterns; gts repair on every stream of 1..3 generated records of different table sizes (record independence, agreement with the library); distinct key = the case; non-trivial = >=1 cut inside a feature or >=2 features of one class"
 			menu := []gts.Location{
 				gts.Range(1, 6), gts.Range(0, 8), gts.Range(2, 4), gts.PartialRange(1, 6, gts.Partial5), gts.PartialRange(2, 7, gts.PartialBoth),
 				gts.Point(3), gts.Ordered{gts.Range(1, 3), gts.Range(5, 7)}, gts.Ambiguous{Start: 2, End: 6},
@@ -534,6 +544,52 @@ func init() {
 							}
 						}
 					}
+				})
+				complete = complete && done
+			}
+			// size dimension: many classes, long qualifier values
+			if complete {
+				type bc struct{ n, p, pat int }
+				var big []bc
+				maxN := 140
+				if r.Tier == "thorough" {
+					maxN = 300
+				}
+				for n := 1; n <= maxN; n++ {
+					for _, pat := range []int{0, 1, 2, 3, 9} {
+						big = append(big, bc{n, 2, pat})
+					}
+				}
+				for _, p := range engine.Ladder(140, 5000) {
+					for _, n := range []int{2, 5, 33} {
+						for _, pat := range []int{0, 3, 9} {
+							big = append(big, bc{n, p, pat})
+						}
+					}
+				}
+				r.Extra["big_tables"] = len(big)
+				done := r.ParallelFor(len(big), func(i int) {
+					eval(c12Case{Kind: "big", N: big[i].n, P: big[i].p, Pat: big[i].pat}, true, 3000+big[i].n+big[i].p)
+				})
+				complete = complete && done
+			}
+			// gts repair on streams of 1..3 generated records (7 record shapes with tables of different sizes)
+			if complete && clidrv.Bin() != "" {
+				var streams [][]int
+				for a := 0; a < 7; a++ {
+					streams = append(streams, []int{a})
+					for b := 0; b < 7; b++ {
+						streams = append(streams, []int{a, b})
+						for c := 0; c < 7; c++ {
+							if (a+b+c)%3 == 0 || r.Tier == "thorough" {
+								streams = append(streams, []int{a, b, c})
+							}
+						}
+					}
+				}
+				r.Extra["cli_streams"] = len(streams)
+				done := r.ParallelFor(len(streams), func(i int) {
+					eval(c12Case{Kind: "cli-stream", Recs: streams[i]}, true, 4000+len(streams[i]))
 				})
 				complete = complete && done
 			}
